@@ -1,2 +1,48 @@
+"""Structural signatures of recorded C04 findings (shared with C05, which persists the same graphs)."""
+
+# classes of the curated model that are stored through an AlternativeMapping whose create_from_dao copies references
+ALT_TO_ALT_FIELDS = {("OTeam", "rival")}
+
+
+def edges(spec):
+    out = []
+    for name, cls, fields in spec:
+        for f, v in fields:
+            if isinstance(v, tuple) and v and v[0] == "ref" and v[1] is not None:
+                out.append((name, f, cls, v[1]))
+            elif isinstance(v, tuple) and v and v[0] in ("list", "set"):
+                out += [(name, f, cls, t) for t in v[1]]
+    return out
+
+
+def alt_to_alt_reference_on_a_cycle(spec):
+    """some reference from an alternatively mapped object to an alternatively mapped object lies on a cycle: the final
+    object of the first one is built (by create_from_dao, which copies the reference) before the second one exists"""
+    es = edges(spec)
+    succ = {}
+    for s, f, cls, t in es:
+        succ.setdefault(s, set()).add(t)
+
+    def reaches(a, b):
+        seen, todo = set(), [a]
+        while todo:
+            n = todo.pop()
+            if n == b:
+                return True
+            if n in seen:
+                continue
+            seen.add(n)
+            todo += list(succ.get(n, ()))
+        return False
+    return any((cls, f) in ALT_TO_ALT_FIELDS and reaches(t, s) for s, f, cls, t in es)
+
+
 def classify(case, failure):
+    spec = case[0] if case and isinstance(case[0], tuple) and case[0] and isinstance(case[0][0], tuple) else case
+    try:
+        on_cycle = alt_to_alt_reference_on_a_cycle(spec)
+    except Exception:
+        return None
+    if failure.kind == "not-isomorphic" and "sharing structure differs" in failure.detail and on_cycle:
+        return "C04/cycle-through-reference-between-alternatively-mapped-objects"
     return None
